@@ -405,6 +405,16 @@ func (u *Unit) bindLocals(ctx *EvalCtx, st *State, at *ssa.BasicBlock) {
 				continue
 			}
 		}
+		// a variable that lives in memory is denoted by its cell, not by the value it was initialised with
+		var inMem []ssa.Value
+		for _, v := range live {
+			if addr[v] {
+				inMem = append(inMem, v)
+			}
+		}
+		if len(inMem) == 1 {
+			live = inMem
+		}
 		if len(live) != 1 {
 			continue
 		}
@@ -497,6 +507,9 @@ func (u *Unit) loopEnter(st *State, from, h *ssa.BasicBlock) {
 	if mods.all {
 		u.havocAll(st)
 	} else {
+		if mods.allExcept {
+			u.havocAllExcept(st, mods.keep)
+		}
 		pol := u.policy()
 		for _, comp := range sortedKeys(mods.comps) {
 			sort, known := u.compSorts()[comp]
@@ -523,7 +536,7 @@ func (u *Unit) loopEnter(st *State, from, h *ssa.BasicBlock) {
 	}
 	// earlier iterations may have allocated: advance the allocation bound before
 	// the loop-carried values are introduced (they may refer to those objects)
-	if mods.allocates || mods.all {
+	if mods.allocates || mods.all || mods.allExcept {
 		u.advanceAlloc(st)
 	}
 	phis := map[*ssa.Phi]Term{}
@@ -638,6 +651,25 @@ type modSet struct {
 	ghosts    map[string]string
 	all       bool
 	allocates bool
+	allExcept bool     // some call may write everything except the packages in keep
+	keep      []string // intersection of the preserved packages of those calls
+}
+
+func (ms *modSet) addPreserving(pkgs []string) {
+	if !ms.allExcept {
+		ms.allExcept = true
+		ms.keep = append([]string(nil), pkgs...)
+		return
+	}
+	var inter []string
+	for _, a := range ms.keep {
+		for _, b := range pkgs {
+			if a == b {
+				inter = append(inter, a)
+			}
+		}
+	}
+	ms.keep = inter
 }
 
 // loopModifies conservatively collects what the blocks of a loop may write.
